@@ -589,6 +589,85 @@ func c16R5(c *Ctx) {
 		}
 		c.check(noTun, "recvLine/windows-reader@in-band", c.ipos(ci), "the Windows-console reader is used only in-band", "the Windows-console reader is used on a tunnel")
 	}
+	// the same as a truth table over the four inputs (universal: which reader runs, and with what junk flag, in each case)
+	{
+		A := func(p func(ssa.Value) bool, v bool) assumption { return assumption{pred: p, val: v} }
+		tun := isFieldLoad("tunnelConnected")
+		winEnv := func(v ssa.Value) bool { call, _ := callOf(v); return call != nil && calleeID(&call.Call) == "trzsz.isWindowsEnvironment" }
+		winProto := isFieldLoad("windowsProtocol")
+		junkCfg := isFieldLoad("TmuxOutputJunk")
+		wins := callsIn(f, idIs("(*trzsz.trzszBuffer).readLineOnWindows"))
+		for _, row := range []struct {
+			name    string
+			as      []assumption
+			windows bool
+			junk    string // "", "true", "false", "param": expected junk argument of readLine
+		}{
+			{"in-band,windows-environment", []assumption{A(tun, false), A(winEnv, true)}, true, ""},
+			{"in-band,windows-framing-negotiated", []assumption{A(tun, false), A(winEnv, false), A(winProto, true)}, true, ""},
+			{"tunnel", []assumption{A(tun, true)}, false, "false"},
+			{"in-band,plain,tmux-junk-announced", []assumption{A(tun, false), A(winEnv, false), A(winProto, false), A(junkCfg, true)}, false, "true"},
+			{"in-band,plain,no-junk-announced", []assumption{A(tun, false), A(winEnv, false), A(winProto, false), A(junkCfg, false)}, false, "param"},
+		} {
+			reach := blocksUnder(f, row.as)
+			gotWin, gotPlain := false, reach[calls[0].Block()]
+			for _, w := range wins {
+				if reach[w.Block()] {
+					gotWin = true
+				}
+			}
+			c.check(gotWin == row.windows && gotPlain == !row.windows, "recvLine/reader@"+row.name, c.pos(f.Pos()), "this case reads with the expected line reader", "in the case '"+row.name+"' the line is read with the wrong reader (Windows-console decorations are not undone, or a plain line is run through the Windows filter)")
+			if row.junk == "" || !gotPlain {
+				continue
+			}
+			got := "?"
+			// the leaves of the argument over the phi edges that stay feasible in this case
+			no := contradicts(row.as)
+			var leaves []ssa.Value
+			seenV := map[ssa.Value]bool{}
+			var walk func(v ssa.Value)
+			walk = func(v ssa.Value) {
+				if seenV[v] {
+					return
+				}
+				seenV[v] = true
+				if ph, isPhi := v.(*ssa.Phi); isPhi {
+					for i, e := range ph.Edges {
+						pred := ph.Block().Preds[i]
+						if !reach[pred] || no(pred, ph.Block()) {
+							continue
+						}
+						walk(e)
+					}
+					return
+				}
+				leaves = append(leaves, v)
+			}
+			walk(arg)
+			allParam, allTrue, allFalse := len(leaves) > 0, len(leaves) > 0, len(leaves) > 0
+			for _, l := range leaves {
+				if !isVar("mayHasJunk")(l) {
+					allParam = false
+				}
+				b, isC := constBool(l)
+				if !isC || !b {
+					allTrue = false
+				}
+				if !isC || b {
+					allFalse = false
+				}
+			}
+			switch {
+			case allParam:
+				got = "param"
+			case allTrue:
+				got = "true"
+			case allFalse:
+				got = "false"
+			}
+			c.check(got == row.junk, "recvLine/junk-flag@"+row.name, c.ipos(calls[0]), "junk tolerance in this case is "+row.junk, "in the case '"+row.name+"' junk tolerance is "+got+", expected "+row.junk+" (tmux decorations are not undone, or a strict line is joined with the next)")
+		}
+	}
 	_ = strings.TrimSpace
 }
 
